@@ -78,7 +78,8 @@ def _replay(c: Contract, clause_or_kind: str, args: Dict[str, Any]):
         if allowed is None:
             return True, f"real code raises undeclared {type(val).__name__}: {str(val)[:120]}"
         cond = c.raises[allowed]
-        if cond and not cond.startswith(("may_", "onlyif_")):
+        if cond and not cond.startswith("may_"):
+            # an iff-condition or an only-if condition: raising while it is false is a violation either way
             if not clause_native(c, cond, args, None):
                 return True, f"real code raises {type(val).__name__} although the contract's condition is false"
         return False, f"real code raises {type(val).__name__} as the contract allows"
